@@ -43,6 +43,7 @@ theorem mergeRows_row (np : NetProblem K) (i : Nat) (hi : i < np.m) :
 
 /-- the merged rows have distinct column indices inside `1..n`: `RowsOK` by construction -/
 theorem mergeRows_rowsOK (np : NetProblem K) : RowsOK (toProblem (mergeRows np)) := by
+  apply RowsOK.of_nodup
   intro i hi
   have hi' : i < np.m := hi
   have e : (toProblem (mergeRows np)).rows.getD i #[]
@@ -73,12 +74,11 @@ theorem denseA_mergeRows (np : NetProblem K) : denseA (mergeRows np) = denseA np
   apply mmk_congr
   intro i j hi hj
   have hrow := mergeRows_row np i hi
-  obtain ⟨hnd, hr⟩ := mergeRows_rowsOK np i hi
   show Dn.vget (rowSum np.n ((mergeRows np).rows.getD i #[])) j = Dn.vget (rowSum np.n (np.rows.getD i #[])) j
   have e1 : rowSum np.n ((mergeRows np).rows.getD i #[]) = rowDense np.n ((mergeRows np).rows.getD i #[]).toList := by
     unfold rowSum
     rw [← Array.foldl_toList]
-    exact rowSum_eq_rowDense np.n _ hnd (fun cv hc => (hr cv hc).1)
+    rfl
   rw [e1, hrow]
   have := rowDense_full np.n (fun j => Dn.mget (denseA np) i j) j hj
   rw [show (((List.range np.n).map fun j => (j + 1, Dn.mget (denseA np) i j)).toArray).toList
